@@ -1,9 +1,11 @@
 import json,sys
 pid=sys.argv[1]
-round2 = len(sys.argv) > 2 and sys.argv[2] == 'round2'
+# usage: mutant_prompt.py <PID> [round2|round3|...]   (round k produces m(2k-1), m(2k))
+rnd = int(sys.argv[2].replace('round', '')) if len(sys.argv) > 2 else 1
+round2 = rnd > 1
 import glob, os
 avoid = ''
-names = ('m3', 'm4') if round2 else ('m1', 'm2')
+names = (f'm{2 * rnd - 1}', f'm{2 * rnd}')
 if round2:
     prev = []
     for d in sorted(glob.glob(f'/verif/seeded/{pid}-m*')):
@@ -12,7 +14,7 @@ if round2:
         except Exception:
             pass
     if prev:
-        avoid = 'Two mutants already exist for this property; produce changes of a DIFFERENT kind, in different functions if possible. The existing ones are:\n' + '\n'.join(prev) + '\n\n'
+        avoid = 'Some mutants already exist for this property; produce changes of a DIFFERENT kind, in different functions if possible. The existing ones are:\n' + '\n'.join(prev) + '\n\n'
 for l in open('/verif/properties.jsonl'):
     p=json.loads(l)
     if p['id']==pid: break
